@@ -314,3 +314,6 @@ pub struct SendOnly(pub u8, pub core::marker::PhantomData<core::cell::Cell<()>>)
 pub fn sendonly(v: u8) -> SendOnly { SendOnly(v, core::marker::PhantomData) }
 /// logged evaluation of a (non-block) operand or initial expression: counts once per evaluation and passes the value on
 pub fn lv<T>(id: usize, v: T) -> T { call(id, 0xA5); v }
+/// generic logging identities usable as path operands of `->` (C14: which step an operator belongs to)
+pub fn tapa<T>(v: T) -> T { ev(140); v }
+pub fn tapb<T>(v: T) -> T { ev(141); v }
